@@ -52,7 +52,7 @@ try:
     # static checks against the changed tree
     m = json.load(open(VERIF + "/MANIFEST.json"))
     det = {}
-    env2 = dict(os.environ, UMYA_REPO=WT, CARGO_NET_OFFLINE="true")
+    env2 = dict(os.environ, UMYA_REPO=WT, CARGO_NET_OFFLINE="true", UMYA_KEEP_EVIDENCE="1")
     for c in m["checks"]:
         pid = c["property_id"]
         rc, out = sh("./vcheck %s --tier quick 2>&1" % pid, cwd=VERIF, env_=env2)
